@@ -41,28 +41,33 @@ def gen_families(fams, tier, workdir):
     return out, counts
 
 
-def run_runner(binp, sub, cases, workdir, opts, shards=12, timeout=1800, label="obs"):
+def run_runner(binp, sub, cases, workdir, opts, shards=12, timeout=1800, label="obs", extra_outs=()):
     """Run `runner <sub>` over the cases in shards; a shard that dies is restarted after the case that
-    killed it, and the death is recorded as data. Returns (obs_path, crashes)."""
+    killed it, and the death is recorded as data. extra_outs: additional (flag, label) output files.
+    Returns (paths dict label->file, crashes)."""
     crashes = []
-    outs = []
+    labels = [("--out", label)] + list(extra_outs)
+    outs = {lab: [] for _, lab in labels}
     pending = []
     for i in range(shards):
-        o = os.path.join(workdir, "%s.%d.ndjson" % (label, i))
-        if os.path.exists(o):
-            os.remove(o)
-        outs.append(o)
+        for _, lab in labels:
+            o = os.path.join(workdir, "%s.%d.ndjson" % (lab, i))
+            if os.path.exists(o):
+                os.remove(o)
+            outs[lab].append(o)
         pending.append((i, 0))
     deadline = time.time() + timeout
     rounds = 0
+    ncrash = {}
     while pending:
         rounds += 1
         if rounds > 50:
             raise C.ToolError("runner keeps dying; giving up")
         procs = []
         for i, skip in pending:
-            cmd = [binp, sub, "--cases", cases, "--out", outs[i], "--shard", "%d/%d" % (i, shards),
-                   "--skip", str(skip)] + opts
+            cmd = [binp, sub, "--cases", cases, "--shard", "%d/%d" % (i, shards), "--skip", str(skip)] + opts
+            for flag, lab in labels:
+                cmd += [flag, outs[lab][i]]
             procs.append((i, skip, subprocess.Popen(cmd, stdout=subprocess.DEVNULL, stderr=subprocess.PIPE)))
         pending = []
         for i, skip, p in procs:
@@ -82,18 +87,22 @@ def run_runner(binp, sub, cases, workdir, opts, shards=12, timeout=1800, label="
             if not last:
                 raise C.ToolError("runner died before its first case (rc=%s): %s" % (rc, err[-500:]))
             case_idx = int(last[-1].split()[1])
-            done = sum(1 for _ in open(outs[i])) if os.path.exists(outs[i]) else 0
-            crashes.append({"case": case_idx, "rc": str(rc), "stderr": err[-300:]})
-            # skip everything already written plus the case that killed the process
-            pending.append((i, done + len([c for c in crashes if c.get("shard") == i]) + 1))
-            crashes[-1]["shard"] = i
-    obs = os.path.join(workdir, label + ".ndjson")
-    with open(obs, "w") as o:
-        for p in outs:
-            if os.path.exists(p):
-                shutil.copyfileobj(open(p), o)
-                os.remove(p)
-    return obs, crashes
+            main_out = outs[label][i]
+            done = sum(1 for _ in open(main_out)) if os.path.exists(main_out) else 0
+            ncrash[i] = ncrash.get(i, 0) + 1
+            crashes.append({"case": case_idx, "rc": str(rc), "stderr": err[-300:], "shard": i})
+            # skip everything already written plus the cases that killed the process
+            pending.append((i, done + ncrash[i]))
+    paths = {}
+    for _, lab in labels:
+        dst = os.path.join(workdir, lab + ".ndjson")
+        with open(dst, "w") as o:
+            for p in outs[lab]:
+                if os.path.exists(p):
+                    shutil.copyfileobj(open(p), o)
+                    os.remove(p)
+        paths[lab] = dst
+    return paths, crashes
 
 
 def load_obs_index(obs_path):
